@@ -102,9 +102,25 @@ verus! {
 // =============================================================================================
 // PART B -- environment
 // =============================================================================================
-pub trait Encoder: Write {}
+// The sticky-index codec uses only the raw byte stream (Write/Read).  The column methods of the real traits are declared
+// (signatures extracted) WITHOUT any contract: what they do to the byte stream is unspecified (in lib0 v2 they read / write
+// separate columns), so a codec function that starts to use one of them on one side only fails its stream contract instead
+// of being outside what the unit can ingest.
+pub trait Encoder: Write {
+    /*@extract yrs/src/updates/encoder.rs | trait Encoder: Write | fn write_left_id | rules=SUB(from=block::ID;;to=ID) @*/
+    /*@extract yrs/src/updates/encoder.rs | trait Encoder: Write | fn write_right_id | rules=SUB(from=block::ID;;to=ID) @*/
+    /*@extract yrs/src/updates/encoder.rs | trait Encoder: Write | fn write_info @*/
+    /*@extract yrs/src/updates/encoder.rs | trait Encoder: Write | fn write_len @*/
+    /*@extract yrs/src/updates/encoder.rs | trait Encoder: Write | fn write_type_ref @*/
+}
 
-pub trait Decoder: Read {}
+pub trait Decoder: Read {
+    /*@extract yrs/src/updates/decoder.rs | trait Decoder: Read | fn read_left_id @*/
+    /*@extract yrs/src/updates/decoder.rs | trait Decoder: Read | fn read_right_id @*/
+    /*@extract yrs/src/updates/decoder.rs | trait Decoder: Read | fn read_info @*/
+    /*@extract yrs/src/updates/decoder.rs | trait Decoder: Read | fn read_len @*/
+    /*@extract yrs/src/updates/decoder.rs | trait Decoder: Read | fn read_type_ref @*/
+}
 
 /// the UTF-8 bytes of a string / the string `from_utf8_unchecked` makes of a byte buffer
 pub uninterp spec fn utf8(s: Seq<char>) -> Seq<u8>;
@@ -942,7 +958,7 @@ impl<'a, C: ContentModel> ItemSlice<'a, C> {
 // level: an edit of the first statement / of the loop body then fails a CONTRACT clause of a real-code function (post)
 // and not only the loop invariant spliced into `sticky_index_of` (a proof hint).
 //   step 1: what the anchor itself contributes
-/*@extract yrs/src/sticky_index.rs | impl StickyIndex | region get_offset | stmt=stmt:assign index | stmtnth=1 | tail=index | label=sticky_anchor_part | rules=SUB(from=self.assoc;;to=assoc)
+/*@extract yrs/src/sticky_index.rs | impl StickyIndex | region get_offset | stmt=stmt:assign index | stmtnth=1 | until=stmt:let encoding | tail=index | label=sticky_anchor_part | rules=SUB(from=self.assoc;;to=assoc)
 @header
     fn sticky_anchor_part<'a, C: ContentModel>(right: &ItemSlice<'a, C>, assoc: Assoc, encoding: OffsetKind, mut index: u32) -> (r: u32)
 @sig
@@ -953,7 +969,7 @@ impl<'a, C: ContentModel> ItemSlice<'a, C> {
 @*/
 
 //   step 2: what one element to the left contributes (the body of the `while let` loop without the link step)
-/*@extract yrs/src/sticky_index.rs | impl StickyIndex | region get_offset | stmt=stmt:if | stmtnth=4 | tail=index | label=sticky_left_step
+/*@extract yrs/src/sticky_index.rs | impl StickyIndex | region get_offset | stmt=stmt:while >> stmt:if | stmtnth=1 | tail=index | label=sticky_left_step
 @header
     fn sticky_left_step<'a, C: ContentModel>(item: &Item<'a, C>, encoding: OffsetKind, mut index: u32) -> (r: u32)
 @sig
@@ -964,7 +980,7 @@ impl<'a, C: ContentModel> ItemSlice<'a, C> {
 @*/
 
 // the `IndexScope::Nested` arm (type-scoped sticky index)
-/*@extract yrs/src/sticky_index.rs | impl StickyIndex | region get_offset | stmt=stmt:assign index | stmtnth=3 | tail=index | label=sticky_index_of_nested | rules=SUB(from=self.assoc;;to=assoc)
+/*@extract yrs/src/sticky_index.rs | impl StickyIndex | region get_offset | stmt=stmt:assign index ~ ptr.content_len | stmtnth=1 | tail=index | label=sticky_index_of_nested | rules=SUB(from=self.assoc;;to=assoc)
 @header
     fn sticky_index_of_nested(ptr: BranchPtr<'_>, assoc: Assoc, mut index: u32) -> (r: u32)
 @sig
@@ -973,7 +989,7 @@ impl<'a, C: ContentModel> ItemSlice<'a, C> {
 @*/
 
 // the `IndexScope::Root` arm (type-scoped sticky index)
-/*@extract yrs/src/sticky_index.rs | impl StickyIndex | region get_offset | stmt=stmt:assign index | stmtnth=4 | tail=index | label=sticky_index_of_root | rules=SUB(from=self.assoc;;to=assoc)
+/*@extract yrs/src/sticky_index.rs | impl StickyIndex | region get_offset | stmt=stmt:assign index ~ ptr.content_len | stmtnth=2 | tail=index | label=sticky_index_of_root | rules=SUB(from=self.assoc;;to=assoc)
 @header
     fn sticky_index_of_root(ptr: &BranchPtr<'_>, assoc: Assoc, mut index: u32) -> (r: u32)
 @sig
